@@ -176,7 +176,8 @@ Proof.
   intros Hv Hs Hp.
   destruct (validate_fm_facts p Hv) as (a & t & Hd & Ha & Hap & Ht & Htr).
   unfold fm_small in Hs. rewrite Ha in Hs. simpl in Hs.
-  destruct o as [n bf|]; simpl in Hp; [|discriminate Hp]. injection Hp as <-.
+  destruct o as [n bf|n|]; simpl in Hp; [| |discriminate Hp]; injection Hp as <-.
+  2:{ unfold fm_create_cp. destruct (fm_maxcat p <? n); discriminate. }
   unfold fm_create. destruct (fm_maxcat p <? n); [discriminate|]. rewrite Ha, Hd, Ht.
   pose proof (fee_split_no_panic 200 a t bf ltac:(lia) ltac:(lia)) as Hfs.
   destruct (fee_split 200 true a (Some t) bf) eqn:Efs; try discriminate.
@@ -275,6 +276,19 @@ Proof.
   exists s, t. repeat split; try reflexivity; try assumption; lia.
 Qed.
 
+Lemma sv_deposit_enough_ok p price dep :
+  0 < sv_mult p -> sv_small p -> 0 <= price < two192 -> exists b, sv_deposit_enough p price dep = inr b.
+Proof.
+  intros Hm Hsm Hp. unfold sv_deposit_enough. cbv zeta.
+  assert (0 <= price * sv_mult p) by (apply Z.mul_nonneg_nonneg; lia).
+  assert (Hio : int_ok (price * sv_mult p) = true).
+  { unfold int_ok. apply Z.ltb_lt. rewrite Z.abs_eq by assumption. unfold sv_small in Hsm.
+    assert (price * sv_mult p <= two192 * 2 ^ 63) by (apply Z.mul_le_mono_nonneg; lia).
+    assert (two192 * 2 ^ 63 < two256) by (vm_compute; reflexivity). lia. }
+  rewrite Hio. cbn [negb].
+  destruct (price * sv_mult p <? 0) eqn:En; [lia|]. eexists. reflexivity.
+Qed.
+
 Lemma sv_no_panic p o r :
   validate_sv p = Ok -> sv_small p -> sv_op_wf o -> sv_path p o = Some r -> res_outcome r <> Abort.
 Proof.
@@ -282,19 +296,12 @@ Proof.
   destruct (validate_sv_facts p Hv) as (s & t & Hm & Hs & Hsr & Ht & Htr & Hd).
   assert (Hnp : forall w, r <> Panic w); [|destruct r; simpl; try discriminate; exfalso; eapply Hnp; reflexivity].
   intros w.
-  destruct o as [price dep qos bal|to|fee esc|deps|]; simpl in Hp; [| | | |discriminate Hp]; injection Hp as <-.
+  destruct o as [price dep qos bal pd|to|fee esc|deps|av price dep add qos bal|av price dep add bal|av dep dis now
+                 |cm cap to ct cf tot bat|];
+    simpl in Hp; try discriminate Hp; injection Hp as <-.
   - (* bind *)
-    unfold sv_bind. simpl in Hwf. cbv zeta.
-    assert (0 <= price * sv_mult p) by (apply Z.mul_nonneg_nonneg; lia).
-    assert (Hio : int_ok (price * sv_mult p) = true).
-    { unfold int_ok. apply Z.ltb_lt. rewrite Z.abs_eq by assumption. unfold sv_small in Hsm.
-      assert (price * sv_mult p <= two192 * 2 ^ 63).
-      { apply Z.mul_le_mono_nonneg; lia. }
-      assert (two192 * 2 ^ 63 < two256) by (vm_compute; reflexivity). lia. }
-    destruct (negb (sv_base p =? 1)); [discriminate|].
-    destruct (_ <? qos); [discriminate|].
-    rewrite Hio. cbn [negb].
-    destruct (price * sv_mult p <? 0) eqn:En; [lia|].
+    unfold sv_bind. simpl in Hwf.
+    destruct (sv_deposit_enough_ok p price dep Hm Hsm Hwf) as [b ->].
     repeat match goal with |- context [if ?c then _ else _] => destruct c end; discriminate.
   - (* call *)
     unfold sv_call. repeat match goal with |- context [if ?c then _ else _] => destruct c end; discriminate.
@@ -314,6 +321,19 @@ Proof.
       pose proof (tax_bounds d s ltac:(lia) ltac:(lia)) as [Hq0 _].
       destruct (dec_truncate_int (d * s) <? 0) eqn:E1; [lia|reflexivity]. }
     rewrite Hw0. change (0 =? 0) with true. cbv iota. exact (IH Hrest).
+  - (* update binding *)
+    unfold sv_update. simpl in Hwf. cbv zeta.
+    destruct (sv_deposit_enough_ok p price (dep + add) Hm Hsm Hwf) as [b ->].
+    repeat match goal with |- context [if ?c then _ else _] => destruct c end; discriminate.
+  - (* enable binding *)
+    unfold sv_enable. simpl in Hwf.
+    destruct (sv_deposit_enough_ok p price (dep + add) Hm Hsm Hwf) as [b ->].
+    repeat match goal with |- context [if ?c then _ else _] => destruct c end; discriminate.
+  - (* refund deposit *)
+    unfold sv_refund. repeat match goal with |- context [if ?c then _ else _] => destruct c end; discriminate.
+  - (* update request context *)
+    unfold sv_update_ctx. cbv zeta.
+    repeat match goal with |- context [if ?c then _ else _] => destruct c end; discriminate.
 Qed.
 
 Definition sv_big : sv_params :=
@@ -322,8 +342,8 @@ Definition sv_big : sv_params :=
 (** the same bind under the defaults is an ordinary rejection *)
 Lemma sv_refuted :
   validate_sv sv_big = Ok /\ sv_small sv_big
-  /\ sv_path sv_big (SvBind (2 ^ 200) 5000 3 1000000) = Some (Panic 402)
-  /\ sv_path sv_defaults (SvBind (2 ^ 200) 5000 3 1000000) = Some Reject.
+  /\ sv_path sv_big (SvBind (2 ^ 200) 5000 3 1000000 1) = Some (Panic 402)
+  /\ sv_path sv_defaults (SvBind (2 ^ 200) 5000 3 1000000 1) = Some Reject.
 Proof. repeat split; vm_compute; reflexivity. Qed.
 
 (** *** token *)
@@ -400,8 +420,11 @@ Proof.
   unfold tk_small in Hs. rewrite Ha in Hs. simpl in Hs.
   assert (Hnp : forall w, r <> Panic w); [|destruct r; simpl; try discriminate; exfalso; eapply Hnp; reflexivity].
   intros w.
-  destruct o as [F bal|F bal|]; simpl in Hp; [| |discriminate Hp]; injection Hp as <-; simpl in Hwf;
-    destruct (tk_issue_fee_spec p F a Hd Ha ltac:(lia) Hwf) as [Hrej|(fee & Hfee & Hfr)].
+  destruct o as [F bal|F bal|c|c am b|c am b|]; simpl in Hp; try discriminate Hp; injection Hp as <-; simpl in Hwf.
+  3:{ unfold tk_deploy. repeat match goal with |- context [if ?c then _ else _] => destruct c end; discriminate. }
+  3:{ unfold tk_swap_to. repeat match goal with |- context [if ?c then _ else _] => destruct c end; discriminate. }
+  3:{ unfold tk_swap_from. repeat match goal with |- context [if ?c then _ else _] => destruct c end; discriminate. }
+  all: destruct (tk_issue_fee_spec p F a Hd Ha ltac:(lia) Hwf) as [Hrej|(fee & Hfee & Hfr)].
   - unfold tk_issue. rewrite Hrej. discriminate.
   - unfold tk_issue. rewrite Hfee, (to_min_ok_small fee ltac:(lia)), Ht. cbn [negb].
     apply fee_split_no_panic; lia.
